@@ -131,8 +131,8 @@ pub fn measured_parse(data: std::sync::Arc<Vec<u8>>) -> Cost {
 
 #[derive(Clone, Debug, PartialEq, Eq)]
 pub enum Family {
-    /// header · u^n · v^n · end
-    Periodic { u: Vec<usize>, v: Vec<usize> },
+    /// header · p · u^n · v^n · s · end
+    Periodic(Periodic),
     /// one named value of n octets with this tag
     ValueLen { tag: u8 },
     /// n distinct attribute names (hash-map growth)
@@ -144,7 +144,7 @@ pub enum Family {
 impl Family {
     pub fn name(&self) -> String {
         match self {
-            Family::Periodic { u, v } => format!("({})^n ({})^n", tok_names(u), tok_names(v)),
+            Family::Periodic(f) => f.name(),
             Family::ValueLen { tag } => format!("value[{:#04x}] of n octets", tag),
             Family::DistinctNames => "n attributes with distinct names".into(),
             Family::DistinctMembers => "collection with n distinct members".into(),
@@ -152,7 +152,7 @@ impl Family {
     }
     pub fn to_json(&self) -> Json {
         match self {
-            Family::Periodic { u, v } => json!({"u": u, "v": v}),
+            Family::Periodic(f) => json!({"p": f.p, "u": f.u, "v": f.v, "s": f.s}),
             Family::ValueLen { tag } => json!({"value_tag": tag}),
             Family::DistinctNames => json!("distinct-names"),
             Family::DistinctMembers => json!("distinct-members"),
@@ -169,22 +169,13 @@ impl Family {
             return Some(Family::ValueLen { tag: t.as_u64()? as u8 });
         }
         let f = |k: &str| -> Option<Vec<usize>> { Some(j.get(k)?.as_array()?.iter().map(|x| x.as_u64().unwrap_or(0) as usize).collect()) };
-        Some(Family::Periodic { u: f("u")?, v: f("v")? })
+        Some(Family::Periodic(Periodic { p: f("p").unwrap_or_default(), u: f("u")?, v: f("v")?, s: f("s").unwrap_or_default() }))
     }
     pub fn bytes(&self, n: usize) -> Vec<u8> {
         let mut b = TOK_HEADER.to_vec();
         match self {
-            Family::Periodic { u, v } => {
-                for _ in 0..n {
-                    for &t in u {
-                        b.extend_from_slice(tok_bytes(t));
-                    }
-                }
-                for _ in 0..n {
-                    for &t in v {
-                        b.extend_from_slice(tok_bytes(t));
-                    }
-                }
+            Family::Periodic(f) => {
+                b = f.bytes(n);
                 b.push(3);
             }
             Family::ValueLen { tag } => {
@@ -224,30 +215,24 @@ impl Family {
     }
 }
 
-fn words(max_len: usize, min_len: usize) -> Vec<Vec<usize>> {
-    let mut out = vec![];
-    for l in min_len..=max_len {
-        for idx in 0..(NTOK as u64).pow(l as u32) {
-            let mut w = vec![0usize; l];
-            let mut x = idx;
-            for i in (0..l).rev() {
-                w[i] = (x % NTOK as u64) as usize;
-                x /= NTOK as u64;
-            }
-            out.push(w);
-        }
-    }
-    out
-}
-
 pub fn families(tier: Tier) -> Vec<Family> {
-    let us = words(2, 1);
-    let vs = words(tier.pick(1, 2), 0);
-    let mut out = vec![];
-    for u in &us {
-        for v in &vs {
-            out.push(Family::Periodic { u: u.clone(), v: v.clone() });
+    let mut out: Vec<Family> = vec![];
+    let mut seen = std::collections::HashSet::new();
+    let mut add = |fs: Vec<Periodic>, out: &mut Vec<Family>| {
+        for f in fs {
+            if seen.insert(f.name()) {
+                out.push(Family::Periodic(f));
+            }
         }
+    };
+    // two-phase families (no prefix / suffix) with the longer words
+    add(periodic_families(0, 2, tier.pick(1, 2), 0), &mut out);
+    // a one-token prefix establishes a state (inside a collection, after a name, in a group) and a
+    // one-token suffix closes it: p · u^n · v^n · s
+    add(periodic_families(1, 1, 1, 1), &mut out);
+    if tier == Tier::Thorough {
+        add(periodic_families(2, 1, 1, 1), &mut out);
+        add(periodic_families(1, 2, 1, 1), &mut out);
     }
     for tag in 0x10..=0x4au8 {
         out.push(Family::ValueLen { tag });
@@ -255,6 +240,10 @@ pub fn families(tier: Tier) -> Vec<Family> {
     out.push(Family::DistinctNames);
     out.push(Family::DistinctMembers);
     out
+}
+
+fn per(p: &[usize], u: &[usize], v: &[usize], s: &[usize]) -> Family {
+    Family::Periodic(Periodic { p: p.to_vec(), u: u.to_vec(), v: v.to_vec(), s: s.to_vec() })
 }
 
 fn judge_alloc(f: &Family, n: usize, c: &Cost) -> Option<(String, String)> {
@@ -330,7 +319,7 @@ pub fn run(ctx: &Ctx) -> ! {
     let mut rep = Report::new(
         ctx,
         "exploration",
-        "EVERY two-phase periodic family header·u^n·v^n·end with u, v words over the 16-token wire alphabet (|u| <= 2, |v| <= 1 quick / <= 2 thorough; nesting = (beg)^n(end)^n, wide sets = (+int)^n, many groups = (delimiter)^n, many members = (member value)^n ..., well-formed or not), the value-length family for every tag 0x10-0x4a, n distinct attribute names, n distinct members; n = 64, 256, 1024, 4096 repetitions (thorough: up to 1 MiB of input for the costliest families). Monitor: bytes and blocks allocated during parse (counting global allocator, budget enforced at the parser's next read) <= c*consumed + c0 with ONE constant for all families; instruction counts under callgrind at n, 2n, 4n for the costliest and the structurally dangerous families must grow < 2.6x per doubling; wall-clock only as a 100x backstop. distinct = (family, n); non-trivial = parse consumed more than the header",
+        "EVERY periodic family header·p·u^n·v^n·s·end with p, u, v, s words over the 16-token wire alphabet (two-phase: |u| <= 2, |v| <= 1 quick / <= 2 thorough; with a one-token prefix and suffix: |p|,|u|,|v|,|s| <= 1; thorough also |p| <= 2 or |u| <= 2; nesting = (beg)^n(end)^n, wide sets = (+int)^n, many groups = (delimiter)^n, many members = (member value)^n ..., well-formed or not), the value-length family for every tag 0x10-0x4a, n distinct attribute names, n distinct members; n = 64, 256, 1024, 4096 repetitions (thorough: up to 1 MiB of input for the costliest families). Monitor: bytes and blocks allocated during parse (counting global allocator, budget enforced at the parser's next read) <= c*consumed + c0 with ONE constant for all families; instruction counts under callgrind at n, 2n, 4n for the costliest and the structurally dangerous families must grow < 2.6x per doubling; wall-clock only as a 100x backstop. distinct = (family, n); non-trivial = parse consumed more than the header",
     );
     rep.assume("bounded evidence for an asymptotic statement: every periodic family of the stated syntactic class up to the stated size; an aperiodic adversarial input is outside the class");
     rep.assume("allocation constants C_BYTES/C_BLOCKS were calibrated once on the repaired tree with a > 4x margin");
@@ -432,14 +421,17 @@ pub fn run(ctx: &Ctx) -> ! {
     // (3) callgrind doubling check on the costliest families + the structurally dangerous ones
     let mut pick: Vec<usize> = vec![];
     let danger: Vec<Family> = vec![
-        Family::Periodic { u: vec![10], v: vec![13] },     // nesting, no member names
-        Family::Periodic { u: vec![11, 10], v: vec![13] }, // nesting with member names
-        Family::Periodic { u: vec![9], v: vec![] },        // unclosed nesting
-        Family::Periodic { u: vec![7], v: vec![] },        // wide set without a name
-        Family::Periodic { u: vec![5, 7], v: vec![] },     // same name again and again + additional
-        Family::Periodic { u: vec![5], v: vec![] },        // identical names
-        Family::Periodic { u: vec![0], v: vec![] },        // groups
-        Family::Periodic { u: vec![11, 7], v: vec![] },    // members outside collections
+        per(&[], &[10], &[13], &[]),     // nesting, no member names
+        per(&[], &[11, 10], &[13], &[]), // nesting with member names
+        per(&[], &[9], &[], &[]),        // unclosed nesting
+        per(&[], &[7], &[], &[]),        // wide set without a name
+        per(&[], &[5, 7], &[], &[]),     // same name again and again + additional
+        per(&[], &[5], &[], &[]),        // identical names
+        per(&[], &[0], &[], &[]),        // groups
+        per(&[], &[11, 7], &[], &[]),    // members outside collections
+        per(&[9], &[7], &[], &[13]),     // one collection holding n values without a member name
+        per(&[9], &[11], &[], &[13]),    // one collection holding n member names without values
+        per(&[5], &[7], &[], &[0]),      // one wide set closed by a group switch
         Family::DistinctNames,
         Family::DistinctMembers,
     ];
